@@ -7,6 +7,7 @@ surrounding text; placeholder multiplicities; JSON-mode end-to-end.
 from __future__ import annotations
 
 import copy
+import itertools
 import re
 
 from ..ref.deps import build_dep, head_payload, resolve_infos
@@ -31,7 +32,7 @@ HOSTILE = ["</script>", "</SCRIPT>", "</ScRiPt ", "</script\n", "<!--", "<\\/scr
 VERSIONS = ["1.0-1", "v2.1", "01.02", "1.0.0RC1", "1!2.0+u.1", "1.0.post1", "2.0.0.0", "1.0a1"]
 FIELDS = ["name", "source.href", "source.subdir", "script.src", "script.type", "stylesheet.href",
           "stylesheet.title", "meta.name", "meta.content", "head.str", "head.script", "head.text",
-          "nosource.script.src", "nosource.stylesheet.href", "head.padded"]
+          "nosource.script.src", "nosource.stylesheet.href", "head.padded", "source.package-none", "script.value-none"]
 INDENTS = [None, 0, 2]
 PLACEHOLDER = "<meta name=\"deps-go-here\">"
 
@@ -67,6 +68,10 @@ def put(info, field, s):
     elif field == "nosource.stylesheet.href":
         info["source"] = None
         info["stylesheet"] = [{"href": "a%b " + s + ".css"}]
+    elif field == "source.package-none":
+        info["source"] = {"package": None, "subdir": "lib/" + s}
+    elif field == "script.value-none":
+        info["script"] = [{"src": s + ".js", "integrity": None, "async": ""}]
     elif field == "head.padded":
         info["head"] = "\n  <i>" + s + "</i> \n"
     elif field == "head.str":
@@ -320,16 +325,44 @@ JSON_TREES = [
 ]
 
 
-def fn_jsonmode(i):
+JSON_PRE = ["nothing", "document-rendered", "document-render-fails", "tag-render-fails", "save_html-fails",
+            "document-render-fails-twice"]
+
+
+def fn_jsonmode(case):
     import htmltools
-    from htmltools import HTMLTextDocument
-    from ..spec import build
+    from htmltools import HTMLDocument, HTMLTextDocument, Tag
+    from ..spec import Boom, build
+    i, pre = case
     viols = []
     x = build(JSON_TREES[i])
     direct = x.render()
     assert htmltools.html_dependency_render_mode == "invisible"
     htmltools.html_dependency_render_mode = "json"
     try:
+        # history: while the process is in JSON mode (as under Quarto), other renders happen first - some
+        # of them fail half-way because an object raises from tagify()
+        for _ in range(2 if pre.endswith("twice") else 1):
+            try:
+                if pre == "document-rendered":
+                    HTMLDocument(build(JSON_TREES[2])).render()
+                elif pre.startswith("document-render-fails"):
+                    HTMLDocument(Tag("div", build(JSON_TREES[2]), Boom())).render()
+                elif pre == "tag-render-fails":
+                    Tag("div", build(JSON_TREES[2]), Boom()).render()
+                elif pre == "save_html-fails":
+                    import os, tempfile, shutil
+                    d = tempfile.mkdtemp(prefix="hv-c13-")
+                    try:
+                        Tag("div", Boom()).save_html(os.path.join(d, "i.html"))
+                    finally:
+                        shutil.rmtree(d, ignore_errors=True)
+            except RuntimeError:
+                pass
+        if htmltools.html_dependency_render_mode != "json":
+            viols.append(("json:mode-changed-by-render", f"after '{pre}' html_dependency_render_mode is "
+                          f"{htmltools.html_dependency_render_mode!r}, not the 'json' the application set", {}))
+            htmltools.html_dependency_render_mode = "json"
         s = str(x)
     finally:
         htmltools.html_dependency_render_mode = "invisible"
@@ -349,6 +382,117 @@ def fn_jsonmode(i):
     return (bool(d1), len(d1), viols)
 
 
+# ------------------------------------ (iii') same markup as HTMLDocument, user subclasses included
+_SUB = {}
+
+
+def dep_subclasses():
+    if _SUB:
+        return _SUB
+    from htmltools import HTMLDependency, Tag, TagList
+
+    class NonceDep(HTMLDependency):
+        """user subclass overriding the public as_html_tags(): adds a nonce to its <script> tags"""
+
+        def as_html_tags(self, *, lib_prefix="lib", include_version=True):
+            out = super().as_html_tags(lib_prefix=lib_prefix, include_version=include_version)
+            for t in out:
+                if isinstance(t, Tag) and t.name == "script":
+                    t.attrs["nonce"] = "N0nce"
+            return out
+
+    class CrossDep(HTMLDependency):
+        """user subclass overriding the public as_dict(): every script is crossorigin"""
+
+        def as_dict(self, *, lib_prefix="lib", include_version=True):
+            d = super().as_dict(lib_prefix=lib_prefix, include_version=include_version)
+            for sc in d["script"]:
+                sc["crossorigin"] = "anonymous"
+            return d
+
+    class PrefixDep(HTMLDependency):
+        """user subclass overriding the public source_path_map(): another directory name"""
+
+        def source_path_map(self, *, lib_prefix="lib", include_version=True):
+            m = super().source_path_map(lib_prefix=lib_prefix, include_version=include_version)
+            return {"source": m["source"], "href": m["href"] + ".vendored"}
+
+    _SUB.update({"nonce": NonceDep, "cross": CrossDep, "prefix": PrefixDep})
+    return _SUB
+
+
+DIFF_DEPS = [
+    ("plain", None), ("amp-name", None), ("url", None), ("head-tag", None), ("head-list", None),
+    ("nonce", "nonce"), ("cross", "cross"), ("prefix", "prefix"),
+]
+
+
+def diff_dep(kind):
+    from htmltools import HTMLDependency, Tag
+    sub = dict(DIFF_DEPS)[kind]
+    cls = dep_subclasses()[sub] if sub else HTMLDependency
+    if kind == "amp-name":
+        return cls("R&D <w>", "1.0", source={"subdir": "libdir"}, script={"src": "a&b.js"}, meta={"name": "m&", "content": "<c>"})
+    if kind == "url":
+        return cls("u", "2.0.1", source={"href": "https://cdn.example/x"}, script={"src": "u.js"}, stylesheet={"href": "u.css"})
+    if kind == "head-tag":
+        return cls("ht", "1", head=Tag("link", rel="preload", href="f.woff"))
+    if kind == "head-list":
+        return cls("hl", "1.1", source={"subdir": "libdir"}, script={"src": "h.js"},
+                   head=[Tag("meta", name="hm", content="1"), "a<b & c", Tag("title", "t")])
+    return cls("dep-" + kind, "1.2", source={"subdir": "libdir"}, script=[{"src": "a.js"}, {"src": "b c.js", "defer": True}],
+               stylesheet={"href": "a.css"}, meta={"name": "m", "content": "c"}, head="<link rel=\"icon\"/>")
+
+
+def sig_tokens(toks):
+    out = []
+    for t in toks:
+        if t[0] == "text":
+            if t[1].strip():
+                out.append(("text", t[1].strip()))
+        else:
+            out.append(t)
+    return out
+
+
+def fn_samemarkup(case):
+    """HTMLTextDocument.render(deps=...) inserts the same listing and dependency markup that HTMLDocument
+    puts in <head> for the same dependencies (differential; token streams compared)."""
+    from htmltools import HTMLDocument, HTMLTextDocument, Tag
+    from ..ref.tokens import TokenError, tokenize
+    kinds, prefix, incv = case
+    viols = []
+    deps_a = [diff_dep(k) for k in kinds]
+    deps_b = [diff_dep(k) for k in kinds]
+    ra = HTMLDocument(Tag("p", "x"), *deps_a).render(lib_prefix=prefix, include_version=incv)
+    text = "<html><head>\nSTART" + PLACEHOLDER + "END\n</head><body><p>x</p></body></html>"
+    rb = HTMLTextDocument(text, deps=deps_b, deps_replace_pattern=PLACEHOLDER).render(lib_prefix=prefix, include_version=incv)
+    try:
+        ha = ra["html"]
+        a0 = ha.index('<meta charset="utf-8"/>') + len('<meta charset="utf-8"/>')
+        a1 = ha.index("</head>")
+        hb = rb["html"]
+        b0 = hb.index("START") + 5
+        b1 = hb.index("END\n</head>")
+        ta = sig_tokens(tokenize(ha[a0:a1]))
+        tb = sig_tokens(tokenize(hb[b0:b1]))
+    except (ValueError, TokenError) as e:
+        viols.append(("same-markup:unparsable", f"{type(e).__name__}: {e}", {"document": ra["html"], "text": rb["html"]}))
+        return (True, None, viols, 2)
+    if ta != tb:
+        viols.append(("same-markup:differs", "HTMLTextDocument.render() does not insert the listing and dependency markup "
+                      "HTMLDocument puts in <head> for the same dependencies",
+                      {"HTMLDocument": ha[a0:a1], "HTMLTextDocument": hb[b0:b1]}))
+    na = [(d.name, str(d.version), type(d).__name__) for d in ra["dependencies"]]
+    nb = [(d.name, str(d.version), type(d).__name__) for d in rb["dependencies"]]
+    if na != nb:
+        viols.append(("same-markup:dependency-list", "the two documents return different dependency lists",
+                      {"HTMLDocument": na, "HTMLTextDocument": nb}))
+    if hb[:b0] + hb[b1:] != text.replace(PLACEHOLDER, ""):
+        viols.append(("same-markup:other-text-touched", "text outside the placeholder changed", {"observed": hb}))
+    return (True, len(ta), viols, 2)
+
+
 def plan(tier):
     singles = Prod(Const(FIELDS), Const(HOSTILE), Const(INDENTS))
     out = [dict(kind="space", name="single-field", space=singles, fn=fn_single, execs=3,
@@ -366,8 +510,16 @@ def plan(tier):
                          f"(repeats allowed) interleaved with {len(SURROUND)} surrounding texts"))
     out.append(dict(kind="space", name="version-spellings", space=Prod(Const(VERSIONS), Const(INDENTS)), fn=fn_version,
                     note="version strings whose normalised form differs from the typed one"))
-    out.append(dict(kind="space", name="json-mode", space=Const(list(range(len(JSON_TREES)))),
+    out.append(dict(kind="space", name="json-mode", space=Prod(Const(list(range(len(JSON_TREES)))), Const(JSON_PRE)),
                     fn=fn_jsonmode, execs=3, note="JSON render mode end-to-end", serial=True))
+    kinds = [k for k, _ in DIFF_DEPS]
+    out.append(dict(kind="space", name="same-markup-as-HTMLDocument", fn=fn_samemarkup, execs=2,
+                    space=Prod(Const([list(c) for n in range(1, 3 if tier == "quick" else 4)
+                                      for c in itertools.permutations(kinds, n)]),
+                               Const(["lib", None, "/abs/p", "p/"]), Const([True, False])),
+                    note="1..2 (thorough 3) distinct dependencies, in every order, from plain / '&' in the name / URL source / head given as a Tag / "
+                         "as a list / user subclasses overriding as_html_tags(), as_dict() or source_path_map() x lib_prefix "
+                         "x include_version: HTMLTextDocument.render(deps=...) vs HTMLDocument.render(), token streams"))
     if tier == "thorough":
         fh = Prod(Const(FIELDS), Const(HOSTILE[:12]))
         out.append(dict(kind="space", name="field-pairs", space=Prod(fh, fh, Const([None, 2])),
